@@ -205,6 +205,16 @@ func c17Use(c *Ctx, rule string) {
 			prevClose = cl
 		}
 	}
+	// the session's own Close() closes its service (when there is one): s.Close() on the receiver counts
+	if prevClose == nil {
+		if sc := c.W.F("engine.(*Session).Close"); sc != nil && len(sc.Calls(sc.Decl.Body, false, "storage.RelationService.Close")) > 0 {
+			for _, cl := range f.Calls(arm, false, "engine.Session.Close") {
+				if id, ok := ast.Unparen(cl.Fun.(*ast.SelectorExpr).X).(*ast.Ident); ok && id.Name == recvName(f) {
+					prevClose = cl
+				}
+			}
+		}
+	}
 	if prevClose == nil {
 		c.Fail(rule, key, useArm.Pos(), "USE replaces the session's service without closing the previous one: its flush timer keeps rewriting the file header from a stale copy (after a restart INSERT fails with 'record already exists')")
 	} else {
